@@ -12,7 +12,7 @@ META = {
     "arbitrary subset of the five caches warmed by real reads, one write (each user operation accepted or rejected, a new bar, the "
     "end-of-bar update with or without liquidation) is executed and every derived view is then proved equal, as a z3 term under "
     "the path condition, to the same view of a freshly constructed cold-cache market carrying the same raw positions, row and prices.",
-    "bounds": ["one write between reads (induction over cache states: warm subsets {none, all, supplies-only, risk-only})", "portfolio shapes of <= 3 tokens (vf/models/aave.py)", "amounts in [0,1e10], indices [1,4], prices [1e-3,1e5]"],
+    "bounds": ["one write between reads (induction over cache states: warm subsets {none, all, supplies-only, risk-only}); listed pairs of two writes with no read in between (first one accepted or rejected)", "portfolio shapes of <= 3 tokens (vf/models/aave.py)", "amounts in [0,1e10], indices [1,4], prices [1e-3,1e5]"],
     "outside": ["formula errors common to warm and cold reads (C11's business)", "APY views (rate ** seconds-per-year is not encoded; compared only as uninterpreted terms)"],
     "assumptions": ["Decimal modelled as exact reals"],
 }
@@ -86,6 +86,13 @@ def write_then_read(ctx):
         liq = len(w.actions) > n0
         ctx.outcome("liquidated" if liq else "no-liquidation")
         what = "end-of-bar update " + ("with liquidation" if liq else "without liquidation")
+    if p.get("then"):
+        # a second write in the same bar, views NOT read in between: whatever the first write left in the caches meets the second one
+        from ..models.nv import _aave_second
+
+        ok2, label2, _ = _aave_second(ctx, w, p["then"], p["tok_then"], None, "_2")
+        ctx.outcome("then:" + ("accepted" if ok2 else "rejected"))
+        what = what + f" then {p['then']} ({'accepted' if ok2 else 'rejected'})"
     _compare(ctx, w, what)
     if kind == "new_bar":
         ctx.check("CANARY views never change", ctx.close(w.market.total_supply_value - w.market.total_borrows_value, nv0, rel=D("1e-25")))
@@ -115,6 +122,13 @@ def scenarios(tier):
                             round_mode="uf",
                         )
                     )
+            # two writes between the reads (the first accepted or rejected), on the shapes with a debt
+            if warm == "all" and (sn in ("A", "B") or tier != "quick"):
+                debts = [n for n in shape if shape[n][1]]
+                colls = [n for n in shape if shape[n][0] == "C"]
+                if debts and colls:
+                    for first, tok1, then, tok2 in (("withdraw", colls[0], "borrow", debts[0]), ("borrow", debts[0], "withdraw", colls[0]), ("repay", debts[0], "borrow", debts[0]), ("supply", colls[0], "withdraw", colls[0]), ("change_collateral", colls[0], "borrow", debts[0])):
+                        out.append(Scenario(f"{sn}/{warm}/{first}:{tok1}+{then}:{tok2}", write_then_read, params=dict(shape=shape, write=first, tok=tok1, tok2=None, warm=warm, then=then, tok_then=tok2), shadows=SHADOWS, entry=("AaveV3Market derived views", f"AaveV3Market.{first}", f"AaveV3Market.{then}"), max_paths=1200, witness_cap=6, round_mode="uf"))
             for wr in ("new_bar", "update"):
                 if tier == "quick" and wr == "update" and (sn not in ("A", "C", "E") or warm != "all"):
                     continue  # multi-debt liquidation loops are explored in the thorough tier (and by C12)
